@@ -356,15 +356,24 @@ impl AsServer<'_> {
         demanded
             .into_iter()
             .filter_map(|addr| {
-                // Replace the demanded ip with the observed one.
-                let i = addr
-                    .iter()
-                    .position(|p| matches!(p, Protocol::Ip4(_) | Protocol::Ip6(_)))?;
-                let mut addr = addr.replace(i, |_| Some(observed_ip.clone()))?;
+                // The address must start with an ip: replace it with the observed one.
+                if !matches!(addr.iter().next()?, Protocol::Ip4(_) | Protocol::Ip6(_)) {
+                    return None;
+                }
+                let mut addr = addr.replace(0, |_| Some(observed_ip.clone()))?;
 
-                let is_valid = addr.iter().all(|proto| match proto {
+                let last = addr.iter().count() - 1;
+                let is_valid = addr.iter().enumerate().all(|(i, proto)| match proto {
+                    // No further host component: only the observed ip may ever be dialed.
+                    Protocol::Ip4(_)
+                    | Protocol::Ip6(_)
+                    | Protocol::Dns(_)
+                    | Protocol::Dns4(_)
+                    | Protocol::Dns6(_)
+                    | Protocol::Dnsaddr(_) => i == 0,
                     Protocol::P2pCircuit => false,
-                    Protocol::P2p(peer_id) => peer_id == peer,
+                    // The peer id of the requester, and only as the final component.
+                    Protocol::P2p(peer_id) => peer_id == peer && i == last,
                     _ => true,
                 });
 
